@@ -38,6 +38,11 @@ type C16Case struct {
 	// "short-signature": the signature handed to Validate lacks its last DropHashes block hashes (the directory is
 	// damaged too); "unreadable": the directory is /proc/self, signed as a build with one file `mem` — it opens,
 	// its first read fails
+	// Missing: "files" | "symlinks" | "dirs": the build has MissingN extra entries of that kind and NONE of them is
+	// on disk — more whole-entry wounds than the wound channel holds, sent by the goroutine that blocks when the
+	// consumer has stopped reading
+	Missing     string `json:"missing,omitempty"`
+	MissingN    int    `json:"missing_n,omitempty"`
 	WorkerFails string `json:"worker_fails,omitempty"`
 	DropHashes  int    `json:"drop_hashes,omitempty"`
 }
@@ -76,6 +81,16 @@ func c16One(env *Env, c *C16Case) {
 	}
 	if c.LongRun > 0 {
 		b.Entries = append(b.Entries, wvlib.BEntry{Path: "long/run.bin", Kind: 'f', Data: r.Bytes((c.LongRun+10)*wvlib.BS + 3)})
+	}
+	for i := 0; i < c.MissingN; i++ {
+		switch c.Missing {
+		case "files":
+			b.Entries = append(b.Entries, wvlib.BEntry{Path: fmt.Sprintf("gone/m%05d.bin", i), Kind: 'f', Data: r.Bytes(1 + r.Intn(20))})
+		case "symlinks":
+			b.Entries = append(b.Entries, wvlib.BEntry{Path: fmt.Sprintf("gone/l%05d", i), Kind: 'l', Dest: "../big.bin"})
+		case "dirs":
+			b.Entries = append(b.Entries, wvlib.BEntry{Path: fmt.Sprintf("gone%05d", i), Kind: 'd'})
+		}
 	}
 	b.Normalize()
 	base := env.Scratch.Sub("c16")
@@ -119,6 +134,15 @@ func c16One(env *Env, c *C16Case) {
 				}
 			}
 		}
+	}
+	if c.MissingN > 0 {
+		var keep []wvlib.BEntry
+		for _, e := range dmg.Entries {
+			if !strings.HasPrefix(e.Path, "gone") {
+				keep = append(keep, e)
+			}
+		}
+		dmg.Entries = keep
 	}
 	dd := base + "/disk"
 	dmg.Write(dd)
@@ -300,6 +324,12 @@ func runC16(env *Env) {
 		}
 		for _, cons := range []string{"failfast", "woundsfile", "printer"} {
 			cases = append(cases, &C16Case{Seed: rng.Next(), Files: 3, Wounded: 0, Consumer: cons, CancelAt: -2, LongRun: lr})
+		}
+	}
+	// more than 1024 whole-entry wounds (entries that are simply not there) with consumers that stop at the first
+	for _, kind := range []string{"files", "symlinks", "dirs"} {
+		for _, cons := range []string{"failfast", "badwoundsfile", "woundsfile"} {
+			cases = append(cases, &C16Case{Seed: rng.Next(), Files: 3, Wounded: 0, Consumer: cons, CancelAt: -2, Missing: kind, MissingN: 1024 + 2 + rng.Intn(300)})
 		}
 	}
 	// the worker itself fails: its error has to reach the caller
